@@ -640,7 +640,8 @@ func classifyRaces() int {
 //
 //	approvals-vs-disconnects: approvals (and running approval timers) of one connection against
 //	repeated removal and set-up of another connection (lock nesting of the approval maps);
-//	entities-vs-discovery: AddEntity / RemoveEntity against discovery reads and (un)subscriptions.
+//	entities-vs-discovery: AddEntity / RemoveEntity against discovery reads and (un)subscriptions;
+//	outbound-requests-on-two-connections: one local client feature subscribing / binding to two peers at once.
 func TestStorms(t *testing.T) {
 	rounds := world.EnvInt("VERIF_ROUNDS", 6)
 	run := func(name string, body func(e *env, stop *atomic.Bool) []func()) {
@@ -812,6 +813,34 @@ func TestStorms(t *testing.T) {
 			for !stop.Load() {
 				_ = e.w.Local.BindingManager().BindingsOnFeature(*e.meas.Address())
 				_ = e.w.Local.BindingManager().Bindings(p0.Dev)
+			}
+		}}
+	})
+	// one local client feature asks features of two different peers for subscriptions and bindings at the
+	// same moment (requests on different connections do not wait for each other), asks what it holds,
+	// gives them up again - while a remote entity of one of the peers goes and comes back
+	run("outbound-requests-on-two-connections", func(e *env, stop *atomic.Bool) []func() {
+		p0, p1 := e.w.Peers[0], e.w.Peers[1]
+		ask := func(p *world.Peer) func() {
+			return func() {
+				a := p.FA([]uint{1}, 3)
+				for i := 0; i < 300 && !stop.Load(); i++ {
+					_, _ = e.cli.SubscribeToRemote(a)
+					_ = e.cli.HasSubscriptionToRemote(a)
+					_, _ = e.cli.BindToRemote(a)
+					_ = e.cli.HasBindingToRemote(a)
+					if i%3 == 2 {
+						_, _ = e.cli.RemoveRemoteSubscription(a)
+						_, _ = e.cli.RemoveRemoteBinding(a)
+					}
+				}
+				stop.Store(true)
+			}
+		}
+		return []func(){ask(p0), ask(p1), func() {
+			for !stop.Load() {
+				e.inbound(p1, op{Kind: "entity-removed"})
+				e.inbound(p1, op{Kind: "entity-added"})
 			}
 		}}
 	})
